@@ -32,6 +32,25 @@ from pywbem._tupleparse import TupleParser
 UINT32_PARAMS = ("MaxObjectCount", "OperationTimeout")
 
 
+def wire_typed(v, t):
+    """value of a PARAMVALUE as the tuple parser delivers it (CIM-XML strings
+    or lists of them, or objects) -> CIM data type object of type `t`.
+    Booleans arrive as 'TRUE'/'FALSE' and must not go through cimvalue()
+    (Python truth testing)."""
+    if t is None or isinstance(v, (CIMInstance, CIMClass, CIMInstanceName,
+                                   CIMClassName)):
+        return v
+    if t == "boolean":
+        conv = lambda x: TupleParser().unpack_boolean(x) \
+            if isinstance(x, str) else x  # noqa
+        return [conv(x) for x in v] if isinstance(v, list) else conv(v)
+    if isinstance(v, list):
+        return [x if isinstance(x, (CIMInstance, CIMClass, CIMInstanceName,
+                                    CIMClassName)) else cimvalue(x, t)
+                for x in v]
+    return cimvalue(v, t)
+
+
 def _ipath_xml(p):
     """INSTANCEPATH needs host and namespace."""
     q = p.copy()
@@ -162,9 +181,7 @@ class Facade(BaseAdapter):
         # extrinsic method
         params = []
         for n, t, v in d["params"]:
-            if t and not isinstance(v, (CIMInstance, CIMClass,
-                                        CIMInstanceName, CIMClassName)):
-                v = cimvalue(v, t)
+            v = wire_typed(v, t)
             if t is None:
                 # e.g. an empty array sent without PARAMTYPE
                 t = "string"
